@@ -163,7 +163,8 @@ class Ctx:
             path = os.path.join(rdir, "%s-%s-%d.json" % (self.cid, self.tier, nrep))
             with open(path, "w") as fh:
                 json.dump(dict(f, tier=self.tier, seed=self.seed), fh, indent=1, default=repr)
-            lines.append("VIOLATION property=%s replay=%s" % (self.cid, path))
+            # a failure that says "this can no longer be examined / compared" names no failing input
+            lines.append("VIOLATION property=%s replay=%s%s" % (self.cid, path, " no-failing-input-found" if f.get("kind") in ("correspondence", "proof") else ""))
         if not violations and (proof_broken or corr_broken):
             path = os.path.join(rdir, "%s-%s-unproved.json" % (self.cid, self.tier))
             with open(path, "w") as fh:
